@@ -15,6 +15,8 @@
   trailing commas, comments, nesting limit), each for all continuations where that makes sense.
 -/
 import JV.Proofs.Utf8
+import JV.Proofs.JsonParserNumber
+import JV.Proofs.JsonParserDepth
 namespace JV.Props.C02
 open JV Spec.Rfc8259
 
@@ -51,6 +53,51 @@ theorem leading_zero_rejected (fl : Flags) (d : Nat) (hd : isDigit d = true) : p
 theorem control_char_rejected (fuel : Nat) (c : Nat) (hc : c < 32) (rest : Bytes) : parseChars (fuel + 1) (c :: rest) = none := by
   have : c ≠ 34 := by omega
   simp [parseChars, this, hc]
+
+
+/-! ### the parser itself (Model: JV.Model.JsonParser — one arm per cell of json_parser.hpp's state machine, tied to the real parser
+    state by state and outcome by outcome by the `parser-model` stream) -/
+section ParserModel
+open Model.JsonParser
+
+/-- the UTF-8 check every completed string goes through (`unicode_traits::validate` = `trailing_bytes_for_utf8` + `is_legal_utf8`)
+    accepts exactly well-formed UTF-8 in the sense of RFC 3629 — for every byte string -/
+theorem validator_is_rfc3629 (bs : Bytes) : validate bs = none ↔ Spec.Rfc8259.validUtf8 bs = true := validate_iff bs
+
+/-- the number sub-automaton (`parse_number`: minus / zero / integer / fraction1 / fraction2 / exp1 / exp2 / exp3) accepts exactly
+    the byte strings that the RFC 8259 number production derives — for every byte string -/
+theorem number_lexer_is_rfc8259 (bs : Bytes) : numAccepts bs = true ↔ ∃ lit, Spec.Rfc8259.parseNumber bs = some (lit, []) :=
+  numAccepts_iff bs
+
+/-- whenever the automaton moves, `parse_number` consumes the character, appends it to the buffer and moves the same way -/
+theorem number_step_follows_automaton (s : St) (c : Nat) (ns' : NS) (h : numNext s.ns c = some ns') :
+    stepNumber s c = ({ s with buf := s.buf ++ [c], ns := ns' }, true) := stepNumber_of_numNext s c ns' h
+
+/-- a text that is one RFC 8259 number is accepted under every configuration and reported as exactly one number event carrying the
+    literal unchanged (its classification into int64/uint64/double/bignum text is C04's `classifyInteger`) -/
+theorem number_text_is_accepted (cfg : Cfg) (lit : Bytes) (h : ∃ l, Spec.Rfc8259.parseNumber lit = some (l, [])) :
+    accepted (run cfg lit) = true ∧ ((run cfg lit).evs = [Ev.int lit] ∨ (run cfg lit).evs = [Ev.frac lit]) :=
+  number_text_accepted cfg lit ((numAccepts_iff lit).2 h)
+
+/-- at no point of any input does a parser that has not failed sit deeper than `max_nesting_depth` -/
+theorem nesting_never_exceeds_limit (cfg : Cfg) (text : Bytes) (h : (feed cfg init text).err = none) :
+    (feed cfg init text).level ≤ cfg.maxDepth :=
+  levelOK_feed cfg init text (levelOK_init cfg) h
+
+/-- the limit is exact: a container opened at the limit is refused with max_nesting_depth_exceeded, one opened below it is not -/
+theorem nesting_limit_exact (cfg : Cfg) (s : St) :
+    (s.level = cfg.maxDepth → (beginArray cfg s).err = some eMaxDepth ∧ (beginObject cfg s).err = some eMaxDepth) ∧
+    (s.level < cfg.maxDepth → (beginArray cfg s).err = s.err ∧ (beginObject cfg s).err = s.err) :=
+  ⟨fun h => ⟨beginArray_at_limit cfg s h, beginObject_at_limit cfg s h⟩,
+   fun h => ⟨(beginArray_below_limit cfg s h).1, (beginObject_below_limit cfg s h).1⟩⟩
+
+-- kernel-evaluated instances of the model (the same definitions the driver runs against the real parser)
+example : accepted (run ⟨2, false, false⟩ [91, 91, 93, 93]) = true := by decide                              -- [[]] at limit 2
+example : (run ⟨2, false, false⟩ [91, 91, 91, 93, 93, 93]).err = some eMaxDepth := by decide                 -- [[[]]] at limit 2
+example : (run ⟨9, true, false⟩ [91, 49, 47, 42, 32, 97, 42, 42, 47, 93]).err = none := by decide            -- [1/* a**/]  (D80)
+example : (run ⟨9, false, false⟩ [48, 49]).err = some eLeadingZero := by decide                               -- 01
+example : (run ⟨9, false, false⟩ [34, 92, 117, 100, 56, 51, 100, 92, 117, 100, 101, 48, 48, 34]).evs = [Ev.str [240, 159, 152, 128] false] := by decide
+end ParserModel
 
 /-! ### the option flags relax exactly one construct each (kernel-evaluated instances, all four flag pairs) -/
 def fl (c t : Bool) : Flags := { comments := c, trailingComma := t, maxDepth := 1024 }
